@@ -34,7 +34,15 @@ type Dog implements Node { id: ID! name: String good: Boolean! }
 union Pet = Cat | Dog
 type Query { me(f: Filter, p: Paging, s: Sort): Person! node(id: ID!): Node people(f: Filter): [Person!] }
 '''
-SCHEMA_B = SCHEMA_A.replace("lives: Int!", "lives: Int").replace("name: String color", "name: String! color")
+# schema B: other nullability AND shifted positions (an extra scalar / enum in front, reordered enums, an extra
+# first field), so that anything remembered about schema A (type / field indices) is wrong for B
+SCHEMA_B = (SCHEMA_A.replace("lives: Int!", "lives: Int").replace("name: String color", "nickname: Int name: String! color")
+            .replace("scalar Date\n", "scalar Extra\nenum Zed { Z }\nscalar Date\n")
+            .replace("enum Color { RED GREEN BLUE }\nenum Size { S M L }\n", "enum Size { S M L }\nenum Color { RED GREEN BLUE }\n")
+            .replace("input Filter {", "input Pre { x: Int }\ninput Filter {")
+            .replace("interface Node { id: ID! }", "interface Named { name: String }\ninterface Node { id: ID! }")
+            .replace("type Person implements Node { id: ID!", "type Other { x: Int }\ntype Person implements Node { extra: Int id: ID!"))
+assert SCHEMA_B.count("Extra") == 1 and "nickname" in SCHEMA_B and "type Other" in SCHEMA_B and "input Pre" in SCHEMA_B
 
 QUERY_A = '''query Main($f: Filter, $p: Paging, $s: Sort, $d: Date) {
   me(f: $f, p: $p, s: $s) {
